@@ -296,6 +296,9 @@ func runC12(env *run.Env, sc *c12Sched, refEvents map[string][]sim.Event) c12Res
 	}
 	argv, e := lc.command(env, dir, home, base, simulate)
 	e = append(e, extra...)
+	// GC stress in the holder: a lock that only lives as long as some
+	// unreferenced object is not collected must not survive this.
+	e = append(e, "GOGC=1")
 	holder := startProc(argv, e, dir)
 	defer holder.killGroup()
 	// Wait until parked.
@@ -532,6 +535,7 @@ func stressC12(env *run.Env, typ string, nproc, rounds int, rep *ev.Reporter) {
 				clc.Compare = true
 			}
 			argv, e := clc.command(env, dir, home, base, simulate)
+			e = append(e, "GOGC=1")
 			wg.Add(1)
 			go func(i int) {
 				defer wg.Done()
@@ -620,6 +624,7 @@ func checkC12(tier, replay string) int {
 	rep.Assumptions = []string{
 		"crash = SIGKILL of the process; flock release semantics at power loss are the kernel's",
 		"status/history/log snapshots are content hashes taken while the holder is parked",
+		"holders and stress processes run with GOGC=1 (a collection after every few allocations), so that a lock tied to an unreferenced file handle is released as early as it can be",
 	}
 	var scheds []*c12Sched
 	if replay != "" {
